@@ -77,7 +77,7 @@ def build_cases(tag, exps, binds, seqs, rng, per_session=40, inputrc_for=None, s
     ci = 0
     for mode, xs in bymode.items():
         for chunk in chunks(xs, per_session * sessions_per_case):
-            cs = {"id": "%s-%s-%d" % (tag, mode, ci), "inputrc": ("set editing-mode vi\n" if mode.startswith("vi") else "") + (inputrc_for or ""),
+            cs = {"id": "%s-%s-%d" % (tag, mode, ci), "inputrc": ("set editing-mode vi\n" if mode.startswith("vi") else "") + (inputrc_for if inputrc_for is not None else case_options(rng, ci, skip=("autocomplete", "history-autosuggest"))),
                   "w": 80, "h": 24, "prompt": "> ", "binds": binds, "setups": [], "sessions": [],
                   "sources": [{"name": "main", "kind": "mem", "lines": HISTORY}]}
             if comp:
